@@ -626,9 +626,10 @@ def correspondence(ctx):
                     add(f'(CTprop "inv" {d_term(v)} {d_term(v2)} {d_term(inv_tol(t, name, di))})',
                         dict(d, check=name, T_moved=fx(v2), moved_axis=[fx(x) for x in var['axis']], moved_base=[fx(x) for x in var['base']],
                              tolerance=inv_tol(t, name, di), moved_axis_class=axis_class([fx(x) for x in var['axis']])))
-            # the model's transmission (per-point outgoing directions) for the cheap rule: every wavelength of the first
-            # detector; for displaced set-ups of the first two detectors (mode 'mixed': one near, one far)
-            if kind == 'cheap' and di < (2 if disp else 1) and not any(v in ('nan', 'inf', '-inf') for v in row):
+            # the model's transmission (per-point outgoing directions), every wavelength: 'cheap' rule, first detector (displaced
+            # set-ups: first two detectors -- mode 'mixed': one near, one far); 'medium' rule, first detector
+            n_mod = {'cheap': 2 if disp else 1, 'medium': 1}.get(kind, 0)
+            if di < n_mod and not any(v in ('nan', 'inf', '-inf') for v in row):
                 add(f'(CTransL {cyl_term(t["cyl"])} {ki} {kk} {d_term(t["to_det"])} {v_term(t["beam"])} {v_term(t["dets"][di])} ['
                     + '; '.join(f'({d_term(m)}, {d_term(v)})' for m, v in zip(r['mu'], row)) + '])',
                     dict(tdesc, det_index=di, axis_class=acls, check='model', mu_per_unit=[fx(m) for m in r['mu']], T=[fx(v) for v in row]))
@@ -638,7 +639,7 @@ def correspondence(ctx):
     order = sorted(range(len(terms)), key=lambda i: (i * 7919) % len(terms))
     terms_s = [terms[i] for i in order]
     descs_s = [descs[i] for i in order]
-    shard = max(8, min(60, len(terms_s) // (3 * vlib.NCPU) + 1))
+    shard = max(8, min(60, len(terms_s) // (6 * vlib.NCPU) + 1))      # ~6 shards per core: the slow ones do not form a long tail
     fails, errors = ctx.coq_eval_shards(HEADER, terms_s, lambda k: FOOTER, shard=shard, timeout=1500)
     for name, e in errors:
         ctx.violation('corr-shard-error', f'correspondence shard {name} did not evaluate: {e[:300]}', {'shard': name, 'error': e},
@@ -660,7 +661,7 @@ def correspondence(ctx):
                 'axis), radius 0.3 mm..0.3 m (small / medium / large), 4 detectors near the sample (1.5..100 sample extents), far '
                 '(100..1e5 extents) or both in one call, all kinds; compared with the same set-up translated back to the origin '
                 '(tolerance 1e-9 + 1e-13 D/min(r,h): rounding only), with a rotated + translated copy (quadrature tolerance) and, for '
-                "'cheap', with the model (per-point outgoing directions) for a near and a far detector",
+                "'cheap' (a near and a far detector) and 'medium' (one detector), with the model (per-point outgoing directions)",
         'observed': {'rays': n_rays, 'ray_classes': cls_count, 'quadrature_points_tested': n_points, 'axis_classes': axis_count,
                      'transmission_values': n_T, 'transmission_values_vs_model': n_model, 'angle_formula': getattr(ctx, 'angle', None),
                      'displaced_setups': n_disp,
@@ -937,7 +938,20 @@ def replay(ctx, obj):
         print('observed path length:', [fx(x) for x in res['cyls'][0]['L']], ' (required: the length of the part of the ray inside the solid)')
         return 1
     if case.get('what') == 'transmission' and 'payload' in (rep.get('case') or {}):
-        res = ctx.run_impl('c18_impl.py', {'mode': 'run', 'cyls': [], 'trans': [rep['case']['payload']]})
-        print('observed:', json.dumps(res['trans'][0])[:1500])
+        t = rep['case']['payload']
+        res = ctx.run_impl('c18_impl.py', {'mode': 'run', 'cyls': [], 'trans': [t]})
+        r = res['trans'][0]
+        chk, di, wi = case.get('check'), case.get('det_index'), case.get('wavelength_index')
+        if chk in ('translate', 'rigid', 'flip') and 'error' not in r and di is not None and wi is not None:
+            for vi, var in enumerate(r.get('variants', [])):
+                name = 'flip' if t['variants'][vi].get('flip') else t['variants'][vi].get('name', 'rigid')
+                if name != chk:
+                    continue
+                v, v2 = fx(r['T'][di][wi]), fx(var['T'][di][wi])
+                tol = inv_tol(t, name, di)
+                print(f'required: the transmission of the moved set-up ({name}) agrees within {tol:.3g} (relative); observed: {v!r} vs {v2!r}, '
+                      f'relative difference {abs(v - v2) / v:.3g}')
+                return 1 if not abs(v - v2) <= tol * v else 0
+        print('observed:', json.dumps(r)[:1500])
         return 1
     return 1
